@@ -302,6 +302,29 @@ def run_ops(I, cls, blk, model, ops):
                 I.prove(f"C15.{cls}.list_assignment_installs_exactly_the_list", False, f"{len(chans)} channels / {len(_items(cls, blk))} items after assigning {k}")
                 return
             model[:] = list(zip(chans, its))
+        elif kind == "set_list_bad":  # fpdata: a list whose last element is not a platform
+            k = op[1]
+            its = [_item(I, cls, f"{tag}.{q}") for q in range(k)]
+            try:
+                blk.platforms = its + ["not a platform"]
+            except Exception as e:  # noqa: BLE001
+                exc = e
+            I.observe(f"{tag}.exc", type(exc).__name__ if exc else None)
+            I.goal("bad_assignment")
+            I.prove(f"C15.{cls}.assignment_with_a_wrong_object_refused", exc is not None)
+            # whatever the refused assignment left behind (the previous items, or a prefix of
+            # the new ones), items and channels are still aligned, every surviving item of
+            # the previous content kept its channel, and later operations see that state
+            items_now = _items(cls, blk)
+            chans = _current_channels(I, cls, blk, len(items_now))
+            I.prove(f"C15.{cls}.channel_list_same_length_as_items", len(chans) == len(items_now), f"after refused assignment: {len(chans)} / {len(items_now)}")
+            if len(chans) != len(items_now):
+                return
+            for c, it in zip(chans, items_now):
+                for c0, it0 in before:
+                    if it0 is it:
+                        I.prove(f"C15.{cls}.surviving_item_keeps_channel", c == c0, "after refused assignment")
+            model[:] = list(zip(chans, items_now))
         if exc is not None and kind in ("add_auto", "add_explicit", "remove_label", "remove_index", "remove_item"):
             model[:] = before
         check_state(I, cls, blk, model, f"after step {step} ({kind})")
@@ -357,7 +380,7 @@ def alphabet(cls, tier):
     if cls == "emg":
         return [("add_auto",), ("add_explicit",), ("remove_label", 0), ("remove_label", 1), ("remove_label", "absent")]
     if cls == "fpdata":
-        return [("add_auto",), ("add_explicit",), ("set_list", 2)] + ([] if q else [("set_list", 0), ("set_list", 1)])
+        return [("add_auto",), ("add_explicit",), ("set_list", 2), ("set_list_bad", 1)] + ([] if q else [("set_list", 0), ("set_list", 1), ("set_list_bad", 0), ("set_list_bad", 2)])
     a = [("add_auto",), ("add_explicit",), ("remove_index",), ("remove_item", 0), ("remove_item", "foreign"),
          ("add_many", 2, True), ("add_many", 2, False), ("set_pairs", 2)]
     if not q:
@@ -392,7 +415,7 @@ def instances(tier):
                 else:
                     alpha_n = alpha
                 for seq in itertools.product(alpha_n, repeat=n):
-                    bulk = sum(1 for o in seq if o[0] in ("add_many", "set_pairs", "set_list"))
+                    bulk = sum(1 for o in seq if o[0] in ("add_many", "set_pairs", "set_list", "set_list_bad"))
                     if n == 3 and (st == "decoded3" or bulk > 1):
                         continue
                     if q and n == 2 and (st == "decoded2" or bulk > 1):
